@@ -41,6 +41,8 @@ def judge(case, out):
     if len(exp) != len(got):
         return False
     for (op, body, dline, q), g in zip(exp, got):
+        if g[3] == "nil":
+            return False         # Redir.Heredoc / Redir.Delim nil on an accepted command
         if q == "0":
             body = drop_continuations(body)   # backslash-newline is a line continuation in an expanding here-document
         if unhx(g[0]).decode() != op or unhx(g[1]).decode("utf-8", "replace") != body or unhx(g[2]).decode("utf-8", "replace") != dline:
